@@ -199,9 +199,25 @@ pub fn check(pool: &Pool, plan: &Plan, ctx: &mut Ctx) -> Result<(), Failure> {
     // sequential model: first-seen results in canonical order
     let ops = all_ops(pool);
     let mut model = std::collections::BTreeMap::new();
+    let t_model = std::time::Instant::now();
     for &op in &ops {
         model.insert(op, run_op(pool, &der, op));
     }
+    // expensive pools (a 16 MiB file, a stream with very long hash chains) get a short plan so that
+    // the fixed work of a run stays bounded
+    let expensive = t_model.elapsed().as_millis() > 1500;
+    let short_plan;
+    let plan = if expensive {
+        ctx.class("expensive-pool:short-plan");
+        short_plan = Plan {
+            history: plan.history.iter().take(8).cloned().collect(),
+            threads: plan.threads.iter().take(4).map(|t| t.iter().take(3).cloned().collect()).collect(),
+            child: plan.child,
+        };
+        &short_plan
+    } else {
+        plan
+    };
     let norm = |op: Op| -> Op {
         if op.0 < 3 {
             (op.0, (op.1 as usize % pool.streams.len()) as u8)
@@ -215,6 +231,11 @@ pub fn check(pool: &Pool, plan: &Plan, ctx: &mut Ctx) -> Result<(), Failure> {
     let mut nontrivial = false;
     let mut prev: Option<Op> = None;
     for (hi, &raw) in plan.history.iter().enumerate() {
+        if t_model.elapsed().as_secs() > 20 {
+            // pathological cost: the rest of this history is skipped (inconclusive, never a verdict)
+            ctx.class("time-capped-history");
+            break;
+        }
         let op = norm(raw);
         ALIGN.with(|c| c.set((hi * 3 + raw.1 as usize) % 8));
         let got = run_op(pool, &der, op);
@@ -234,7 +255,7 @@ pub fn check(pool: &Pool, plan: &Plan, ctx: &mut Ctx) -> Result<(), Failure> {
     }
     ctx.class_n("history-calls", plan.history.len() as u64);
     // (2) concurrency
-    if !plan.threads.is_empty() {
+    if !plan.threads.is_empty() && t_model.elapsed().as_secs() <= 20 {
         let pool_a = Arc::new(pool.clone());
         let der_a = Arc::new(der);
         let barrier = Arc::new(Barrier::new(plan.threads.len()));
@@ -281,7 +302,7 @@ pub fn check(pool: &Pool, plan: &Plan, ctx: &mut Ctx) -> Result<(), Failure> {
         ctx.class_n("concurrent-calls", plan.threads.iter().map(|t| t.len() as u64).sum());
     }
     // (3) cross-process
-    if plan.child {
+    if plan.child && t_model.elapsed().as_secs() <= 30 {
         let dir = out_root().join("work").join("C14");
         let _ = std::fs::create_dir_all(&dir);
         let path = dir.join(format!("pool_{}_{}.json", std::process::id(), ctx.cfg.shard));
@@ -385,7 +406,20 @@ fn eval_dna(dna_bytes: &[u8], ctx: &mut Ctx) -> Result<(), (Failure, Value)> {
     let plan = Plan { history, threads, child: pd.chance(25) };
     let doc = plan_doc(&pool, &plan);
     ctx.set_inflight(&doc);
+    let t0 = std::time::Instant::now();
     let r = check(&pool, &plan, ctx);
+    let ms = t0.elapsed().as_millis() as u64;
+    if ctx.counting && ms > ctx.extra.get("slowest_case_ms").and_then(|v| v.as_u64()).unwrap_or(0) {
+        ctx.extra.insert("slowest_case_ms".into(), json!(ms));
+        ctx.extra.insert(
+            "slowest_case".into(),
+            json!({"streams": pool.streams.iter().map(|s| s.len()).collect::<Vec<_>>(), "files": pool.files.iter().map(|s| s.len()).collect::<Vec<_>>(),
+                   "history": plan.history.len(), "threads": plan.threads.len(), "child": plan.child}),
+        );
+        if ms > 10_000 {
+            let _ = std::fs::write(out_root().join("work").join("C14").join(format!("slow_case_{}.json", ctx.cfg.shard)), doc.to_string());
+        }
+    }
     ctx.sample(|| json!({"streams": pool.streams.iter().map(|s| s.len()).collect::<Vec<_>>(), "files": pool.files.iter().map(|s| s.len()).collect::<Vec<_>>(),
                          "history": plan.history.len(), "threads": plan.threads.len(), "child": plan.child}));
     r.map_err(|f| (f, doc))
